@@ -48,6 +48,16 @@ type Conn struct {
 	rdExpired  bool
 	rdCancel   func()
 
+	// SendWindow > 0: at most this many bytes may sit unread at the peer (stream
+	// mode, no WriteHook); a Write that does not fit hands over what fits and
+	// blocks until the peer reads, this end is closed or the write deadline
+	// expires - then it returns the number of bytes accepted so far and a
+	// timeout error (a partial write), as a kernel socket with a full send
+	// buffer does. 0: writes never block.
+	SendWindow int
+	wrExpired  bool
+	wrCancel   func()
+
 	// WriteHook runs inside Write (after the bytes were handed to the peer
 	// queue unless it returns an error): synchronous server model and write
 	// fault injection. It runs on the writer's thread.
@@ -150,6 +160,9 @@ func (c *Conn) Write(p []byte) (int, error) {
 	if c.closed {
 		return 0, net.ErrClosed
 	}
+	if c.SendWindow > 0 && c.WriteHook == nil && !c.Datagram {
+		return c.writeWindowed(p)
+	}
 	b := append([]byte(nil), p...)
 	nth := len(c.Writes)
 	c.Writes = append(c.Writes, b)
@@ -216,10 +229,76 @@ func (a fakeAddr) String() string  { return string(a) }
 
 func (c *Conn) SetDeadline(t time.Time) error {
 	c.SetReadDeadline(t)
+	c.SetWriteDeadline(t)
 	return nil
 }
 
-func (c *Conn) SetWriteDeadline(t time.Time) error { return nil }
+func (c *Conn) SetWriteDeadline(t time.Time) error {
+	if c.SendWindow == 0 {
+		return nil // writes never block on this connection
+	}
+	vs.Point("conn.setwdl", c.key())
+	if c.closed {
+		return net.ErrClosed
+	}
+	if c.wrCancel != nil {
+		c.wrCancel()
+		c.wrCancel = nil
+	}
+	c.wrExpired = false
+	if t.IsZero() || !vs.Active() {
+		return nil
+	}
+	if !t.After(vs.Now()) {
+		c.wrExpired = true
+		return nil
+	}
+	c.wrCancel = vs.NewDeadline(t, "conn.wdl", func() { c.wrExpired = true; c.wrCancel = nil })
+	return nil
+}
+
+func (c *Conn) unreadAtPeer() int {
+	n := 0
+	for _, r := range c.peer.in {
+		n += len(r.b) - r.off
+	}
+	return n
+}
+
+// writeWindowed is Write under a bounded send window (see SendWindow).
+func (c *Conn) writeWindowed(p []byte) (int, error) {
+	sent := 0
+	record := func() {
+		if sent > 0 {
+			c.Writes = append(c.Writes, append([]byte(nil), p[:sent]...))
+			c.WriteAt = append(c.WriteAt, vs.Elapsed())
+		}
+	}
+	for sent < len(p) {
+		if space := c.SendWindow - c.unreadAtPeer(); space > 0 {
+			n := min(space, len(p)-sent)
+			c.peer.Deliver(append([]byte(nil), p[sent:sent+n]...))
+			sent += n
+			continue
+		}
+		vs.Block("conn.write.full", c.key(), func() bool {
+			return c.closed || c.wrExpired || c.peer.closed || c.unreadAtPeer() < c.SendWindow
+		})
+		switch {
+		case c.closed:
+			record()
+			return sent, net.ErrClosed
+		case c.peer.closed:
+			record()
+			return sent, ErrInjected
+		case c.wrExpired:
+			record()
+			return sent, ErrTimeout
+		}
+	}
+	record()
+	return sent, nil
+}
 
 func (c *Conn) SetReadDeadline(t time.Time) error {
 	vs.Point("conn.setrdl", c.key())
